@@ -3,6 +3,8 @@ package main
 import (
 	"fmt"
 	"go/token"
+	"go/types"
+	"strings"
 
 	"golang.org/x/tools/go/ssa"
 )
@@ -55,6 +57,7 @@ func checkC07(c *Ctx) {
 		return
 	}
 	SAVE, SWC, UNDO, REDO, REV, RLB, RESET, RUN := fs[names[0]], fs[names[1]], fs[names[2]], fs[names[3]], fs[names[4]], fs[names[5]], fs[names[6]], fs[names[7]]
+	_ = RESET
 
 	// ---- save after every command (K1)
 	r.Rule("C07.save-every-command", "K1", "every path of Shell.run from command execution to return passes History.SaveWithCommand, which always calls Save", 2)
@@ -208,7 +211,7 @@ func checkC07(c *Ctx) {
 	}
 
 	// ---- Save (K1+K3+K4)
-	r.Rule("C07.save", "K1", "Save appends {text of the current buffer} to items, under !skip, after truncating items at len-pos (a new edit discards the redo branch)", 4)
+	r.Rule("C07.save", "K1", "Save appends {text of the current buffer} to items, under !skip, after cutting items behind the state undone to (items[:len-pos+1] when pos > 0: a new edit discards the undone steps and only them); a skipped save leaves the undo position alone", 6)
 	{
 		bf := blockFacts(SAVE)
 		var appendStore, truncStore *ssa.Store
@@ -259,209 +262,164 @@ func checkC07(c *Ctx) {
 				}
 			}
 			r.Check(okArg0 && okText, "C07.save", fnName(SAVE)+":append-current-text", p.IPos(appendStore), "items = append(items, {string(*h.line), …})", "the saved undo state is not the current buffer text appended to items")
-			// truncation dominates append
+			// the truncation: items[:len(items)-pos+1] — the state undone to is kept — on the pos > 0 branch of a test that dominates the append
 			if truncStore == nil {
 				r.Bad("C07.save", fnName(SAVE)+":truncate", p.Pos(SAVE.Pos()), "items is not truncated at the undo position before appending: the redo branch survives a new edit")
 			} else {
 				sl := truncStore.Val.(*ssa.Slice)
 				okTr := isFieldLoad(sl.X, lhT, "items") && sl.Low == nil
-				if b, ok := sl.High.(*ssa.BinOp); ok && b.Op == token.SUB {
-					okLen := false
-					if cl, ok := b.X.(*ssa.Call); ok {
-						if bi, ok := cl.Call.Value.(*ssa.Builtin); ok && bi.Name() == "len" && isFieldLoad(cl.Call.Args[0], lhT, "items") {
-							okLen = true
+				isPos := func(v ssa.Value) bool {
+					return dependsOn(v, func(x ssa.Value) bool { return isFieldLoad(x, lhT, "pos") })
+				}
+				keepsState := false
+				if add, ok := sl.High.(*ssa.BinOp); ok && add.Op == token.ADD {
+					if one, isK := constInt(add.Y); isK && one == 1 {
+						if b, ok := add.X.(*ssa.BinOp); ok && b.Op == token.SUB {
+							if cl, ok := b.X.(*ssa.Call); ok {
+								if bi, ok := cl.Call.Value.(*ssa.Builtin); ok && bi.Name() == "len" && isFieldLoad(cl.Call.Args[0], lhT, "items") && isPos(b.Y) {
+									keepsState = true
+								}
+							}
 						}
 					}
-					okTr = okTr && okLen && isFieldLoad(b.Y, lhT, "pos")
-				} else {
-					okTr = false
 				}
-				dom, _ := mustPassBefore(SAVE, nil, func(in ssa.Instruction) bool { return in == ssa.Instruction(appendStore) }, func(in ssa.Instruction) bool { return in == ssa.Instruction(truncStore) })
-				r.Check(okTr && dom, "C07.save", fnName(SAVE)+":truncate", p.IPos(truncStore), "items = items[:len(items)-pos] precedes the append on every path", fmt.Sprintf("the truncation items[:len(items)-pos] is missing or does not precede the append on every path (shape ok=%v, dominates=%v)", okTr, dom))
-				// the truncation's pos is clamped: fact !(pos > len(items)) or dominated by store pos=len
-				ops := factsFieldRel(factsAt(bf, truncStore), lhT, "pos", nil, func(v ssa.Value) bool {
-					cl, ok := v.(*ssa.Call)
-					if !ok {
-						return false
+				// under pos > 0, and the test dominates the append
+				underPos, dom := false, false
+				for fc := range factsAt(bf, truncStore) {
+					rel, ok := relOf(fc.Cond, fc.Val)
+					if ok && isPos(rel.X) && rel.Op == token.GTR {
+						if k, isK := constInt(rel.Y); isK && k == 0 {
+							underPos = true
+							if ci, isI := fc.Cond.(ssa.Instruction); isI && instrDominates(ci, appendStore) {
+								dom = true
+							}
+						}
 					}
-					bi, ok := cl.Call.Value.(*ssa.Builtin)
-					return ok && bi.Name() == "len"
+				}
+				r.Check(okTr && keepsState && underPos && dom, "C07.save", fnName(SAVE)+":truncate", p.IPos(truncStore), "items = items[:len(items)-pos+1] under pos > 0, tested before the append",
+					fmt.Sprintf("the truncation is not items[:len(items)-pos+1] on the pos > 0 branch of a test made before the append (slice of items: %v, keeps the state undone to: %v, under pos > 0: %v, tested before the append: %v): the undone steps survive a new edit, or the state undone to is lost — after undoing back to the first state, a command that does not save before editing makes it unreachable", okTr, keepsState, underPos, dom))
+				// the "line unchanged" shortcut comes after the truncation: it compares with the state undone to, not with an undone step
+				shortcutAfter := true
+				eachInstr(SAVE, func(in ssa.Instruction) {
+					bo, ok := in.(*ssa.BinOp)
+					if !ok || bo.Op != token.EQL {
+						return
+					}
+					if _, isStr := bo.X.Type().Underlying().(*types.Basic); !isStr || bo.X.Type().Underlying().(*types.Basic).Kind() != types.String {
+						return
+					}
+					if w := pathAvoiding(SAVE, nil, func(x ssa.Instruction) bool { return x == in }, func(x ssa.Instruction) bool { return x == ssa.Instruction(truncStore) }); w != nil {
+						// a path reaches the comparison without the truncation: fine only when pos <= 0 there
+						okZero := false
+						for fc := range factsAt(bf, in) {
+							_ = fc
+						}
+						// the comparison must be dominated by the pos > 0 test
+						for _, b := range SAVE.Blocks {
+							if iff, isIf := b.Instrs[len(b.Instrs)-1].(*ssa.If); isIf {
+								if rel, ok := relOf(iff.Cond, true); ok && dependsOn(rel.X, func(x ssa.Value) bool { return isFieldLoad(x, lhT, "pos") }) && rel.Op == token.GTR && instrDominates(iff, in) {
+									okZero = true
+								}
+							}
+						}
+						if !okZero {
+							shortcutAfter = false
+						}
+					}
 				})
-				_ = ops
+				r.Check(shortcutAfter, "C07.save", fnName(SAVE)+":shortcut-after-truncate", p.IPos(truncStore), "the unchanged-line shortcut follows the pos > 0 test", "the `line unchanged` shortcut is taken before the undone steps are cut: it compares the line with an undone step instead of the state undone to")
 			}
 		}
-		// Save always ends in Reset (deferred)
-		hasDefer := false
+		// Save ends in Reset (deferred) on every path that is not the skipped one; the skipped path neither
+		// rewinds the undo position nor calls Reset: the line may still sit on top of a state that was undone to
+		var deferReset ssa.Instruction
 		eachInstr(SAVE, func(in ssa.Instruction) {
 			if d, ok := in.(*ssa.Defer); ok && calleeName(d) == "(*history.Sources).Reset" {
-				if d.Block() == SAVE.Blocks[0] {
-					hasDefer = true
+				deferReset = in
+			}
+		})
+		if deferReset == nil {
+			r.Bad("C07.save", fnName(SAVE)+":defer-Reset", p.Pos(SAVE.Pos()), "Save does not defer Reset: the skip/undoing flags and the undo position are not re-armed after a saved command")
+		} else {
+			okAll, skippedClean := true, true
+			eachInstr(SAVE, func(in ssa.Instruction) {
+				ret, ok := in.(*ssa.Return)
+				if !ok {
+					return
 				}
-			}
-		})
-		r.Check(hasDefer, "C07.save", fnName(SAVE)+":defer-Reset", p.Pos(SAVE.Pos()), "Reset is deferred at entry", "Save does not unconditionally defer Reset: skip/undoing flags and the undo position are not re-armed after each command")
-	}
-
-	// ---- Reset (K4)
-	r.Rule("C07.reset", "K4", "Reset clears skip and undoing on every path past the nil check and zeroes pos only when the last command was not an undo", 3)
-	{
-		bf := blockFacts(RESET)
-		n := 0
-		eachInstr(RESET, func(in ssa.Instruction) {
-			st, ok := isFieldStore(in, lhT, "pos")
-			if !ok {
-				return
-			}
-			n++
-			k, isC := constInt(st.Val)
-			guard := false
-			for f := range factsAt(bf, in) {
-				if isFieldLoad(f.Cond, "history.Sources", "undoing") && !f.Val {
-					guard = true
+				if w := pathAvoiding(SAVE, nil, func(x ssa.Instruction) bool { return x == ssa.Instruction(ret) }, func(x ssa.Instruction) bool { return x == deferReset }); w == nil {
+					return // every path to this return passes the defer
 				}
-			}
-			r.Check(isC && k == 0 && guard, "C07.reset", fnName(RESET)+":pos=0", p.IPos(in), "pos = 0 under !undoing", "Reset zeroes the undo position without the !undoing guard (or to a non-zero value): repeated undo cannot walk further back")
-		})
-		if n == 0 {
-			r.Bad("C07.reset", fnName(RESET)+":pos=0", p.Pos(RESET.Pos()), "Reset never zeroes the undo position: a new edit keeps truncating at a stale undo position")
-		}
-		okSkip, _ := mustPassBefore(RESET, nil, isReturn, func(in ssa.Instruction) bool {
-			st, ok := isFieldStore(in, "history.Sources", "skip")
-			if !ok {
-				return false
-			}
-			b, isC := constBool(st.Val)
-			return isC && !b
-		})
-		r.Check(okSkip, "C07.reset", fnName(RESET)+":skip=false", p.Pos(RESET.Pos()), "skip cleared on every path", "Reset can return without clearing skip: the next command's state is not saved")
-		// undoing=false on every path that found a line history
-		var und *ssa.Store
-		eachInstr(RESET, func(in ssa.Instruction) {
-			if st, ok := isFieldStore(in, "history.Sources", "undoing"); ok {
-				if b, isC := constBool(st.Val); isC && !b {
-					und = st
-				}
-			}
-		})
-		r.Check(und != nil, "C07.reset", fnName(RESET)+":undoing=false", p.Pos(RESET.Pos()), "undoing cleared", "Reset never clears undoing: the undo position is never reset after an edit")
-	}
-
-	// ---- pos discipline (K4)
-	r.Rule("C07.index", "K4", "lineHistory.pos is only reset to 0, clamped to len(items), incremented, or decremented under a dominating pos >= 1 test; each items[len(items)-pos] read is guarded by its clamp", 5)
-	isLenItems := func(v ssa.Value) bool {
-		cl, ok := v.(*ssa.Call)
-		if !ok {
-			return false
-		}
-		bi, ok := cl.Call.Value.(*ssa.Builtin)
-		return ok && bi.Name() == "len" && len(cl.Call.Args) == 1 && isFieldLoad(cl.Call.Args[0], lhT, "items")
-	}
-	isConstK := func(k int64) func(ssa.Value) bool {
-		return func(v ssa.Value) bool { x, ok := constInt(v); return ok && x == k }
-	}
-	for _, f := range p.RepoFuncs {
-		var bf FactMap
-		n := 0
-		eachInstr(f, func(in ssa.Instruction) {
-			st, ok := isFieldStore(in, lhT, "pos")
-			if !ok {
-				return
-			}
-			if bf == nil {
-				bf = blockFacts(f)
-			}
-			key := fmt.Sprintf("%s:store(pos)#%d", fnName(f), n)
-			n++
-			r.Fn(fnName(f))
-			switch v := st.Val.(type) {
-			case *ssa.Const:
-				k, _ := constInt(v)
-				r.Check(k == 0, "C07.index", key, p.IPos(in), "pos = 0", fmt.Sprintf("pos set to constant %d", k))
-			case *ssa.Call:
-				r.Check(isLenItems(v), "C07.index", key, p.IPos(in), "pos = len(items)", "pos assigned from a call other than len(items)")
-			case *ssa.BinOp:
-				k, isK := constInt(v.Y)
-				switch {
-				case v.Op == token.ADD && isK && k == 1 && isFieldLoad(v.X, lhT, "pos"):
-					r.OK("C07.index", key, p.IPos(in), "pos++")
-				case v.Op == token.SUB && isK && k == 1 && isFieldLoad(v.X, lhT, "pos"):
-					// guarded: pos >= 1 on the pre-decrement value
-					good := false
-					for _, op := range factsFieldRel(factsAt(bf, in), lhT, "pos", v.X, isConstK(1)) {
-						if op == token.GEQ {
-							good = true
-						}
+				skipped := false
+				for fc := range factsAt(bf, in) {
+					if isFieldLoad(fc.Cond, "history.Sources", "skip") && fc.Val {
+						skipped = true
 					}
-					for _, op := range factsFieldRel(factsAt(bf, in), lhT, "pos", v.X, isConstK(0)) {
-						if op == token.GTR {
-							good = true
-						}
-					}
-					r.Check(good, "C07.index", key, p.IPos(in), "pos-- under pos >= 1",
-						"pos is decremented without a dominating pos >= 1 test on the same value: redo with nothing to redo drives pos to -1 and the next undo reads items[len(items)] (index out of range)")
-				default:
-					r.Bad("C07.index", key, p.IPos(in), "unrecognised arithmetic on the undo position: "+v.String())
 				}
-			default:
-				r.Bad("C07.index", key, p.IPos(in), "unrecognised assignment to the undo position: "+st.Val.String())
-			}
-		})
-	}
-	// index reads items[len(items)-pos]
-	for _, f := range []*ssa.Function{UNDO, REDO} {
-		bf := blockFacts(f)
-		n := 0
-		eachInstr(f, func(in ssa.Instruction) {
-			ia, ok := in.(*ssa.IndexAddr)
-			if !ok || !isFieldLoad(ia.X, lhT, "items") {
-				return
-			}
-			b, ok := ia.Index.(*ssa.BinOp)
-			if !ok || b.Op != token.SUB || !isLenItems(b.X) || !isFieldLoad(b.Y, lhT, "pos") {
-				return
-			}
-			key := fmt.Sprintf("%s:items[len-pos]#%d", fnName(f), n)
-			n++
-			posLoad := b.Y
-			upper, lower := false, false
-			for _, op := range factsFieldRel(factsAt(bf, in), lhT, "pos", posLoad, isLenItems) {
-				if op == token.LEQ || op == token.LSS {
-					upper = true
-				}
-			}
-			for _, op := range factsFieldRel(factsAt(bf, in), lhT, "pos", posLoad, isConstK(1)) {
-				if op == token.GEQ {
-					lower = true
-				}
-			}
-			for _, op := range factsFieldRel(factsAt(bf, in), lhT, "pos", posLoad, isConstK(0)) {
-				if op == token.GTR {
-					lower = true
-				}
-			}
-			// Undo establishes the lower bound by incrementing first (pos >= 0 invariant), Redo by testing pos < 1.
-			incFirst := false
-			eachInstr(f, func(x ssa.Instruction) {
-				if st, ok := isFieldStore(x, lhT, "pos"); ok {
-					if bo, ok := st.Val.(*ssa.BinOp); ok && bo.Op == token.ADD {
-						if ok2, _ := mustPassBefore(f, nil, func(y ssa.Instruction) bool { return y == in }, func(y ssa.Instruction) bool { return y == x }); ok2 {
-							incFirst = true
-						}
-					}
+				if !skipped {
+					okAll = false
 				}
 			})
-			switch {
-			case upper && (lower || incFirst):
-				r.OK("C07.index", key, p.IPos(in), "1 <= pos <= len(items) established locally")
-			case lower && !upper:
-				// Redo: upper bound rests on the cross-command invariant pos <= len(items) (not decided here)
-				r.OK("C07.index", key, p.IPos(in), "pos >= 1 tested; pos <= len(items) rests on the cross-command invariant (not decided)")
-			default:
-				r.Bad("C07.index", key, p.IPos(in), fmt.Sprintf("items[len(items)-pos] is read without its clamp (pos<=len tested: %v, pos>=1 tested or incremented first: %v): index out of range", upper, lower || incFirst))
+			// on the skip == true branch: no store to lineHistory.pos, no call to Reset
+			for _, b := range SAVE.Blocks {
+				iff, ok := b.Instrs[len(b.Instrs)-1].(*ssa.If)
+				if !ok || !isFieldLoad(iff.Cond, "history.Sources", "skip") {
+					continue
+				}
+				t := b.Succs[0]
+				// a Reset deferred before the test runs on the skipped path too
+				if instrDominates(deferReset, iff) {
+					skippedClean = false
+				}
+				if w := pathAvoiding(SAVE, t.Instrs[0], func(x ssa.Instruction) bool {
+					if _, isSt := isFieldStore(x, lhT, "pos"); isSt {
+						return true
+					}
+					return isCallTo(x, "(*history.Sources).Reset")
+				}, func(x ssa.Instruction) bool { _, isRet := x.(*ssa.Return); return isRet }); w != nil {
+					skippedClean = false
+				}
 			}
-		})
+			r.Check(okAll, "C07.save", fnName(SAVE)+":defer-Reset", p.IPos(deferReset), "Reset is deferred on every path but the skipped one", "a path of Save that is not the skipped one returns without the deferred Reset: the flags and the undo position are not re-armed after the command")
+			r.Check(skippedClean, "C07.save", fnName(SAVE)+":skipped-keeps-position", p.IPos(deferReset), "the skipped path leaves the undo position alone", "a skipped save (typing, movements) rewinds the undo position or runs Reset: the undone steps stay in the list behind a position that says nothing was undone, and the next undo goes to a state that had been undone before")
+		}
+	}
+
+	// ---- the undo position and the indexes computed from it (K9)
+	r.Rule("C07.index", "K9", "in Save, Undo, Redo, Revert and Reset every index and slice of the saved states (items[len(items)-pos], items[:len(items)-pos+1], items[:last+1]…) is proved in range, and every store to the undo position is proved non-negative, by the zone-domain prover (the clamps of the position to len(items), the `pos < 1` exits and the decrement under them are what the proof uses; no reviewed entry is accepted here)", 6)
+	{
+		chk := map[string]int64{}
+		for _, ci := range classInvariants {
+			chk[ci.tn+"."+ci.fld] = ci.lb
+		}
+		z := &zoneEngine{p: p, contracts: coreContracts(), fieldMinLen: map[string]int64{}, useGetters: true, useHeap: true, fieldLB: nonnegFieldLB, fieldLBCheck: chk, entryNonneg: sortCallbackParams(p), entryFacts: sortCallbackFacts(p)}
+		n := 0
+		for _, fn := range []string{"(*history.Sources).Save", "(*history.Sources).Undo", "(*history.Sources).Redo", "(*history.Sources).Revert", "(*history.Sources).Reset"} {
+			f := p.Func(fn)
+			if f == nil {
+				r.Unk("C07.index", fn, "-", "anchor not found")
+				continue
+			}
+			r.Fn(fn)
+			z.obls = nil
+			z.analyse(f)
+			cnt := map[string]int{}
+			for _, o := range z.obls {
+				if !o.IsBound && !strings.Contains(o.What, "history.lineHistory.pos") {
+					continue
+				}
+				n++
+				kind := "site"
+				if !o.IsBound {
+					kind = "store(pos)"
+				}
+				key := fmt.Sprintf("%s:%s#%d", fn, kind, cnt[kind])
+				cnt[kind]++
+				r.Check(o.OK, "C07.index", key, p.IPos(o.In), "proved: "+o.What, "cannot prove "+o.What+" ("+o.Detail+"): the undo position can leave [0, len(items)] or an index computed from it the saved states — undo or redo panics, or reads a state that is not the one meant")
+			}
+		}
 		if n == 0 {
-			r.Unk("C07.index", fnName(f)+":items[len-pos]", p.Pos(f.Pos()), "no items[len(items)-pos] read found — rule table needs review")
+			r.Unk("C07.index", "obligations", "-", "the prover found no site in the undo functions: anchor changed")
 		}
 	}
 	checkC07InitKey(c)
